@@ -57,7 +57,7 @@ class HistTrav(Hist):
         for tid in range(ntasks):
             kind = weighted_choice(rng, [('top_sort', 2), ('dfs', 5), ('bfs', 4)])
             inverse = rng.random() < 0.5
-            mode = weighted_choice(rng, [('default', 3), ('some', 5), ('repeats', 1), ('empty', 1), ('all', 1)])
+            mode = weighted_choice(rng, [('default', 3), ('some', 5), ('repeats', 1), ('empty', 1), ('all', 1), ('own', 1)])
             if mode == 'default' or kind == 'top_sort':
                 start = None
             elif mode == 'some':
@@ -67,9 +67,15 @@ class HistTrav(Hist):
                 start = [x, rng.choice(labels), x]
             elif mode == 'empty':
                 start = []
+            elif mode == 'own':
+                # the circuit's own list objects as the start set: dfs(c.outputs), bfs(c.inputs, inverse=True)
+                start = real.inputs if rng.random() < 0.5 else real.outputs
+                self.res.stats.probes.bump('traversal-start-set-is-the-circuits-own-list')
             else:
                 start = list(labels)
                 rng.shuffle(start)
+            if type(start) is list and start is not real.inputs and start is not real.outputs and rng.random() < 0.2:
+                start = tuple(start)
             hooks = set()
             if kind != 'top_sort':
                 for h in ('enter', 'discover', 'exit', 'unvisited', 'end'):
